@@ -5,6 +5,7 @@
 #include <stdarg.h>
 #include <stdbool.h>
 #include "verif.h"
+#include "express/scope.h"   /* first inclusion must be the rewritten copy (union -> struct), see unit.json */
 #include "src/exppp/pretty_expr.c"
 
 /* ---- ghost transcript of emitted pieces ---- */
